@@ -163,3 +163,46 @@ func H_Search_Moved(p []int) {
 	vAssert(m.Rect() == plain.Rect() && m.Convex() == plain.Convex() && m.Clockwise() == plain.Clockwise(), "C04.move-attributes")
 	vCheckSearch(m, n, rect, "")
 }
+
+// H_Search_Template: concrete coordinate layouts with the REAL node constants (depth-limit buckets, more than 255
+// items in one node so that 2-byte encodings occur), fully symbolic query rectangle and nondeterministic stop.
+// params: layout, n, kind
+func H_Search_Template(p []int) {
+	layout, n, kind := p[0], p[1], p[2]
+	pts := make([]Point, n)
+	for i := range pts {
+		switch layout {
+		case 0: // every point identical: all zero-length segments sink into one depth-limit bucket
+			pts[i] = Point{5, 5}
+		case 1: // zig-zag through the centre: segments stay in the root's own item list
+			if i%2 == 0 {
+				pts[i] = Point{10, 10}
+			} else {
+				pts[i] = Point{-10, -10}
+			}
+		default: // collinear run
+			pts[i] = Point{float64(i), 0}
+		}
+	}
+	rect := vRectAny("q")
+	s := makeSeries(pts, true, false, &IndexOptions{Kind: vKind(kind), MinPoints: 1})
+	ns := s.NumSegments()
+	count := 0
+	bad := false
+	s.Search(rect, func(seg Segment, idx int) bool {
+		if idx < 0 || idx >= ns || seg != s.SegmentAt(idx) {
+			bad = true
+		}
+		count++
+		return true
+	})
+	want := 0
+	for i := 0; i < ns; i++ {
+		if s.SegmentAt(i).Rect().IntersectsRect(rect) {
+			want++
+		}
+	}
+	vAssert(!bad, "C04.template-index-and-segment")
+	vAssert(count == want, "C04.template-count")
+	vCover("template.done")
+}
